@@ -2,7 +2,10 @@ module symgo
 
 go 1.23
 
-require golang.org/x/tools v0.29.0
+require (
+	golang.org/x/text v0.16.0
+	golang.org/x/tools v0.29.0
+)
 
 require (
 	golang.org/x/mod v0.22.0 // indirect
